@@ -25,84 +25,6 @@ pub mod big_digit {
 
 use self::big_digit::DoubleBigDigit;
 
-/// the two's-complement digit stream of +val(s) (neg == false) or -val(s) (neg == true)
-pub open spec fn sdig(neg: bool, s: Seq<u64>, i: nat) -> u64 { if neg { ndig(s, i) } else { dig(s, i as int) } }
-pub open spec fn sval(neg: bool, s: Seq<u64>) -> int { if neg { -(val(s) as int) } else { val(s) as int } }
-/// op: 0 = and, 1 = or, 2 = xor
-pub open spec fn dop(op: int, u: u64, v: u64) -> u64 { if op == 0 { u & v } else if op == 1 { u | v } else { u ^ v } }
-pub open spec fn bop(op: int, p: bool, q: bool) -> bool { if op == 0 { p && q } else if op == 1 { p || q } else { p != q } }
-/// the window of n result digits
-pub open spec fn wdig(op: int, an: bool, a: Seq<u64>, bn: bool, b: Seq<u64>, n: nat) -> Seq<u64> {
-    Seq::new(n, |j: int| dop(op, sdig(an, a, j as nat), sdig(bn, b, j as nat)))
-}
-
-pub proof fn lemma_dbit_dop(op: int, u: u64, v: u64, j: nat)
-    requires j < 64
-    ensures dbit(dop(op, u, v), j) == bop(op, dbit(u, j), dbit(v, j))
-{
-    let jj = j as u64;
-    assert(jj < 64 ==> (((u & v) >> jj) & 1 == 1) == (((u >> jj) & 1 == 1) && ((v >> jj) & 1 == 1))) by (bit_vector);
-    assert(jj < 64 ==> (((u | v) >> jj) & 1 == 1) == (((u >> jj) & 1 == 1) || ((v >> jj) & 1 == 1))) by (bit_vector);
-    assert(jj < 64 ==> (((u ^ v) >> jj) & 1 == 1) == (((u >> jj) & 1 == 1) != ((v >> jj) & 1 == 1))) by (bit_vector);
-}
-
-pub proof fn lemma_ibit_s(neg: bool, s: Seq<u64>, k: nat)
-    requires neg ==> val(s) > 0
-    ensures ibit(sval(neg, s), k) == dbit(sdig(neg, s, k / 64), k % 64)
-{
-    if neg { lemma_ibit_neg(s, k); } else { lemma_ibit_pos(s, k); }
-}
-
-/// beyond its digits the stream of a number is its sign digit
-pub proof fn lemma_sdig_high(neg: bool, s: Seq<u64>, i: nat)
-    requires i >= s.len(), neg ==> val(s) > 0
-    ensures sdig(neg, s, i) == (if neg { 0xffff_ffff_ffff_ffffu64 } else { 0u64 })
-{
-    if neg { lemma_ndig_high(s, i); }
-}
-
-/// a non-negative result given digit-wise: every bit of it is the operation on the operands' bits
-pub proof fn lemma_pos_result(op: int, r: Seq<u64>, an: bool, a: Seq<u64>, bn: bool, b: Seq<u64>)
-    requires an ==> val(a) > 0, bn ==> val(b) > 0,
-        forall|i: nat| dig(r, i as int) == dop(op, #[trigger] sdig(an, a, i), sdig(bn, b, i))
-    ensures forall|k: nat| #[trigger] ibit(val(r) as int, k) == bop(op, ibit(sval(an, a), k), ibit(sval(bn, b), k))
-{
-    assert forall|k: nat| #[trigger] ibit(val(r) as int, k) == bop(op, ibit(sval(an, a), k), ibit(sval(bn, b), k)) by {
-        lemma_ibit_pos(r, k);
-        lemma_ibit_s(an, a, k);
-        lemma_ibit_s(bn, b, k);
-        let i = k / 64;
-        assert(dig(r, i as int) == dop(op, sdig(an, a, i), sdig(bn, b, i)));
-        lemma_dbit_dop(op, sdig(an, a, i), sdig(bn, b, i), k % 64);
-    }
-}
-
-/// a negative result assembled by re-negating the window w of n result digits, the result stream being all ones beyond
-pub proof fn lemma_neg_result_op(op: int, r: Seq<u64>, an: bool, a: Seq<u64>, bn: bool, b: Seq<u64>, n: nat)
-    requires an ==> val(a) > 0, bn ==> val(b) > 0,
-        r =~= (if ncar(wdig(op, an, a, bn, b, n), n) == 1 { twd(wdig(op, an, a, bn, b, n), n).push(1u64) } else { twd(wdig(op, an, a, bn, b, n), n) }),
-        forall|i: nat| i >= n ==> dop(op, #[trigger] sdig(an, a, i), sdig(bn, b, i)) == 0xffff_ffff_ffff_ffffu64
-    ensures val(r) > 0,
-        forall|k: nat| #[trigger] ibit(-(val(r) as int), k) == bop(op, ibit(sval(an, a), k), ibit(sval(bn, b), k))
-{
-    let w = wdig(op, an, a, bn, b, n);
-    lemma_neg_result(r, w, n);
-    assert forall|k: nat| #[trigger] ibit(-(val(r) as int), k) == bop(op, ibit(sval(an, a), k), ibit(sval(bn, b), k)) by {
-        lemma_ibit_s(an, a, k);
-        lemma_ibit_s(bn, b, k);
-        let i = k / 64;
-        let j = k % 64;
-        lemma_dbit_dop(op, sdig(an, a, i), sdig(bn, b, i), j);
-        if k < 64 * n {
-            assert(w[i as int] == dop(op, sdig(an, a, i), sdig(bn, b, i)));
-        } else {
-            assert(dop(op, sdig(an, a, i), sdig(bn, b, i)) == 0xffff_ffff_ffff_ffffu64);
-            let jj = j as u64;
-            assert(jj < 64 ==> (0xffff_ffff_ffff_ffffu64 >> jj) & 1 == 1) by (bit_vector);
-        }
-    }
-}
-
 //@ extract src/bigint/bits.rs :: fn negate_carry rules=R0 props=C07
 fn negate_carry(a: BigDigit, acc: &mut DoubleBigDigit) -> /*+*/(lo: /*-*/BigDigit/*+*/)/*-*/
 //+{
@@ -168,25 +90,6 @@ fn bitand_pos_neg(a: &mut [BigDigit], b: &[BigDigit])
 //+}
 }
 //@ end
-
-pub proof fn lemma_bit_ids(x: u64, y: u64)
-    ensures x & 0xffff_ffff_ffff_ffffu64 == x, 0xffff_ffff_ffff_ffffu64 & x == x, x | 0u64 == x, 0u64 | x == x, x ^ 0u64 == x, 0u64 ^ x == x,
-        y & 0xffff_ffff_ffff_ffffu64 == y, 0xffff_ffff_ffff_ffffu64 & y == y, y | 0u64 == y, 0u64 | y == y, y ^ 0u64 == y, 0u64 ^ y == y,
-        x & 0u64 == 0, 0u64 & x == 0, y & 0u64 == 0, 0u64 & y == 0,
-        x | 0xffff_ffff_ffff_ffffu64 == 0xffff_ffff_ffff_ffffu64, 0xffff_ffff_ffff_ffffu64 | x == 0xffff_ffff_ffff_ffffu64,
-        y | 0xffff_ffff_ffff_ffffu64 == 0xffff_ffff_ffff_ffffu64, 0xffff_ffff_ffff_ffffu64 | y == 0xffff_ffff_ffff_ffffu64,
-        x ^ y == y ^ x, x & y == y & x, x | y == y | x, !0u64 == 0xffff_ffff_ffff_ffffu64,
-        0u64 ^ 0xffff_ffff_ffff_ffffu64 == 0xffff_ffff_ffff_ffffu64, 0xffff_ffff_ffff_ffffu64 ^ 0u64 == 0xffff_ffff_ffff_ffffu64,
-{
-    assert(x & 0xffff_ffff_ffff_ffffu64 == x && 0xffff_ffff_ffff_ffffu64 & x == x && x | 0u64 == x && 0u64 | x == x && x ^ 0u64 == x && 0u64 ^ x == x) by (bit_vector);
-    assert(y & 0xffff_ffff_ffff_ffffu64 == y && 0xffff_ffff_ffff_ffffu64 & y == y && y | 0u64 == y && 0u64 | y == y && y ^ 0u64 == y && 0u64 ^ y == y) by (bit_vector);
-    assert(x & 0u64 == 0 && 0u64 & x == 0 && y & 0u64 == 0 && 0u64 & y == 0) by (bit_vector);
-    assert(x | 0xffff_ffff_ffff_ffffu64 == 0xffff_ffff_ffff_ffffu64 && 0xffff_ffff_ffff_ffffu64 | x == 0xffff_ffff_ffff_ffffu64) by (bit_vector);
-    assert(y | 0xffff_ffff_ffff_ffffu64 == 0xffff_ffff_ffff_ffffu64 && 0xffff_ffff_ffff_ffffu64 | y == 0xffff_ffff_ffff_ffffu64) by (bit_vector);
-    assert(x ^ y == y ^ x && x & y == y & x && x | y == y | x) by (bit_vector);
-    assert(!0u64 == 0xffff_ffff_ffff_ffffu64) by (bit_vector);
-    assert(0u64 ^ 0xffff_ffff_ffff_ffffu64 == 0xffff_ffff_ffff_ffffu64 && 0xffff_ffff_ffff_ffffu64 ^ 0u64 == 0xffff_ffff_ffff_ffffu64) by (bit_vector);
-}
 
 // - 1 & -ff = ...f ff & ...f 01 = ...f 01 = - ff
 //@ extract src/bigint/bits.rs :: fn bitand_neg_neg rules=R0,R10z,R14,R10s2,R29,R12e,R16u props=C07
